@@ -36,6 +36,13 @@ def cells(tier):
     out.append(cell("s2 A2 cancel0 flush flush-caller-cancelled flushRE slowcbs", sc, MON))
     sc = scen(pool(2, "SimpleTaskPool", ecb="slow", ccb="plain", slow_ids=[0]), [[S("S", 3)], [["stop", 1]], [FLUSH], [FLUSH]], outcomes=["ret"])
     out.append(cell("simple s2 S3 stop1 flush x2 slowecb0", sc, MON))
+    for size in [2, "inf"]:
+        # the group of the flushed tasks is cancelled and its name re-used for new (running) tasks while flush() waits
+        sc = scen(pool(size), [[A("A", 2, name="g")], [FLUSH], [cgroup("A"), A("B", 1, name="g", needs_cancelled="A")]],
+                  outcomes=["ret"], ecb="slow", ccb="plain", slow_ids=[0])
+        out.append(cell(f"s{size} A2 name g|flush|cgroupA,B1 re-uses g slowecb0", sc, MON))
+        sc = scen(pool(size), [[A("A", 1)], [FLUSH_RE], [CALL, A("B", 1)]], outcomes=["ret"], ecb="slow", ccb="slow", slow_ids=[0])
+        out.append(cell(f"s{size} A1|flushRE|call,B1 (generated name re-used) slowcbs", sc, MON))
     if not q:
         for size in [1, 2]:
             sc = scen(pool(size), [[A("A", 2)], [M("M", 3, 2)], [CALL], [FLUSH], [FLUSH_RE]], outcomes=["ret", "exc"], ecb="plain", ccb="slow", slow_ids=[0, 2])
